@@ -65,7 +65,20 @@ What the misses had in common, and what was done about the pattern rather than t
   call, pointer to struct, a comma-joined Omit string, a slice that is its own Valuer), an expression type
   (Lte), a clause option (OnConflict.Where), a call order (Having before Group, After before Before), a
   session flag (DryRun) that the generator never used.
-* **Cold/warm bias** (C13-d): one long-lived handle meant the schema cache was always warm.
+* **Cold/warm bias** (C13-d; round 5: C04-k): one long-lived handle meant the schema cache and the
+  statement cache were always warm; half of C04's programs now start from an emptied statement cache.
+* **Rounds 4 and 5, same five patterns, further out.** Second use: a handle derived from a chain that
+  stays in use (C06-k), FindInBatches run from a handle (C06-j), a second Raw on a chain value, a handle per
+  goroutine (C07-j), a record reachable twice in one Create (C13-h). Error paths: zero-row statements whose
+  hook wrote (C04-h), RETURNING on delete (C05-h), hooks failing with a bare library error value (C05-k,
+  C13-k), an operation failing after its main statement (C19-j), a failure private to one caller (C14-k), a
+  context cancelled in mid-operation or carrying a deadline (C18-j/k), a pipeline entered with an error
+  already attached (C17-i). Schema: value and mixed hook receivers (C13-i), anonymous embedding and shadowed
+  columns, column names with gorm's own separator (C03-j/k), mixed-case data under LIKE (C02-k), soft-delete
+  twins where there were none (C02-j, C11-h). API surface: OnConflict conditions (C01-k), compound finishers
+  (C19-h), single-record finders into collections (C15-k), the clause API for an empty condition (C09-j),
+  ToSQL on a handle that already runs dry (C19-k), calls that name no target (C12-i), several parents in
+  association mode (C11-i), Unscoped + Joins + nested Preload and deletes with selected relations (C08-j/k).
 
 Misses that were not workload gaps:
 
@@ -76,6 +89,12 @@ Misses that were not workload gaps:
   (":interleaved" vs ":preset-first" keys; number of Before/After requests in the sequence; the two
   access stacks of a race only), C10's oracle emits one violation per class of disagreement, and
   section 8.3 lists the re-keyed findings. A seeded run whose *known* count jumps is treated as a miss.
+  Rounds 4 and 5 added three more cases of the same kind: C07-h (every race inside the parser was one
+  class; now a fixed list of function pairs), C16-h (every FirstOrCreate+Assign step on a found record with a
+  zero key part was filed under KF-C16-1; the engine now predicts exactly what KF-C16-1 leaves and files only
+  matching observations), C14-j (every deadlock with one connection was KF-C14-2; a single worker alone has
+  its own signature), and the split of `side:star` into four (KF-C17-13/14).
+* **Oracle gap (C12-k).** A slice-level Count was accepted anywhere between distinct records and links.
 * **Inconclusive instead of violation (C14-d).** The scheduler called Reset/Close synchronously: a Close
   that blocks froze the scheduler and every child ran into the watchdog (exit 2). Controller actions now
   run on their own goroutine and take part in the bounded-progress decision.
@@ -87,7 +106,11 @@ Misses that were not workload gaps:
 Repairs of gorm found *because* a seeded change made a workload richer (not the seeded defect itself):
 the OR in association-join conditions (C08), Row() after a failed preparation (C14), stale relations in
 reused destinations (C11, two), Replace on "*" callbacks (C17), re-linking through a soft-delete join
-model (C12), a nil self-serializer pointer (C03); plus the known findings KF-C12-7 and KF-C16-1.
+model (C12), a nil self-serializer pointer (C03); plus the known findings KF-C12-7 and KF-C16-1. Rounds 4
+and 5: Reset of a configured statement cache with live sessions (C14), hooks of mixed receivers (C13), a
+second Raw keeping the first one's arguments (C01), an empty WHERE clause passing the missing-condition guard
+(C09), a shadowed field with a database default returned into twice (C03); plus KF-C14-3 and KF-C17-13/14.
+Three seeded changes lost their effect through such a repair and were retired (C13-i, C09-j, C09-k).
 ''')
 p = '/verif/DESIGN.md'
 s = open(p).read()
